@@ -84,7 +84,15 @@ def runLine (ds : DS) (line : String) : DS × Option String :=
       else
         let s := if ds.fix then seekWrite ds.g target.toNat else seekWriteOld ds.g target.toNat
         let ds1 := if s.restart then { ds with fpos := 0, blkc := 0 } else ds
-        let ds1 := if s.dropped then { ds1 with ws := { ds1.ws with cnt := 0 }, blkc := ds1.blkc + 1 } else ds1
+        -- `msadpcm_decode_block` on a writer: blockcount++ passes `blocks` (0), so it clears the first samplesperblock * channels
+        -- BYTES of the sample buffer (half of its shorts) and returns; the rest of the buffer — pending frames beyond that half and
+        -- whatever the last encode left — stays and is what `msadpcm_close` pads a later partly filled block with
+        let ds1 := if s.dropped then
+            let g := ds1.g
+            let standing := ds1.ws.buf.take (ds1.ws.cnt * g.ch) ++ ds1.ws.es.stale.drop (ds1.ws.cnt * g.ch)
+            let half := g.spb * g.ch / 2
+            { ds1 with ws := { ds1.ws with cnt := 0, es := { ds1.ws.es with stale := Sf.Block.zeros half ++ standing.drop half } }, blkc := ds1.blkc + 1 }
+          else ds1
         match s.ret with
         | none => (ds1, some "ret=-1 err=E")
         | some r => ({ ds1 with wcur := r }, some s!"ret={r} err=0")
